@@ -243,6 +243,8 @@ class VSeq:
 
     def invariant(self, k, lg):
         """class invariant of _function for term k (see module comment)"""
+        if getattr(self, 'inv_fn', None) is not None:
+            return self.inv_fn(k, lg)
         return [z3.Or(self.tl(k) == 1, self.tl(k) == lg),
                 z3.Or(self.cls(k) == CLS_MM, self.cls(k) == CLS_SMM),
                 z3.Implies(self.cls(k) == CLS_SMM, self.tl(k) == 1),
@@ -255,8 +257,15 @@ class VSeq:
     def abs_truth(self, ex, st):
         return self.n > 0
 
+    def abs_getitem(self, ex, st, idx, n):
+        c, k = const_of(idx)
+        if c and isinstance(k, int) and k >= 0:
+            if ex.decide(st, self.n > k) is not True:
+                raise Unsupported('element %d of a possibly shorter list' % k)
+            return self.elem(Z(k))
+        raise Unsupported('item of a list of functions')
+
     def abs_loop(self, ex, st, s, fid):
-        new = st.ghost['new']
         k = z3.Int(ex.fresh('k'))
         b = st.copy()
         b.pc += [k >= 0, k < self.n] + self.invariant(k, st.ghost['lg'])
@@ -332,7 +341,7 @@ def setattr_rec(orig):
             st.ghost['attrs'] = dict(st.ghost.get('attrs', {}))
             st.ghost['attrs'][attr] = v
             return
-        if isinstance(base, (FArg, Vec, VSeq)):
+        if isinstance(base, (FArg, Vec, VSeq, MMArg)):
             ex.oblige(st, 'index-frame', z3.BoolVal(False), s,
                       'the argument function is not modified (attribute %s '
                       'assigned)' % attr, extra={'prop': 'C11'})
@@ -352,7 +361,29 @@ def b_len(ex, st, args, kwargs, n):
         return I(v.lg)
     if isinstance(v, (Vec, IdxList)):
         return I(v.ln if isinstance(v, Vec) else v.n)
+    if isinstance(v, VSeq):
+        return I(v.n)
+    if isinstance(v, MMArg):
+        return I(v.lg)
     return _len0(ex, st, args, kwargs, n)
+
+
+_list0 = L.ext.get('builtins.list')
+
+
+def b_list(ex, st, args, kwargs, n):
+    # list(f): the components f[0], ..., f[len(f)-1] (each of length 1)
+    if len(args) == 1 and isinstance(args[0], Vec) and \
+            args[0].src is not None:
+        v = args[0]
+        seq, k0 = v.src
+        comps = VSeq('components of %s[%s]' % (seq.name, k0), v.ln,
+                     lambda k: Z(1), lambda k, i: seq.g(k0, k), seq.ismax,
+                     lambda k: Z(0), lambda k: seq.g(k0, k))
+        comps.inv_fn = lambda k, lg: []
+        comps.comps_of = (seq, k0)
+        return comps
+    return _list0(ex, st, args, kwargs, n)
 
 
 def b_type(ex, st, args, kwargs, n):
@@ -399,8 +430,30 @@ def m_matrix(ex, st, args, kwargs, n):
     raise Unsupported('matrix(%r)' % (args,))
 
 
+class MMArg:
+    """self in _minmax.__getitem__ (read only)"""
+    abs_object = True
+
+    def __init__(self, lg, flist, ismax):
+        self.lg, self.flist, self.ismax = lg, flist, ismax
+
+    def abs_getattr(self, ex, st, attr, n):
+        if attr == '_flist':
+            return self.flist
+        if attr == '_ismax':
+            return B(self.ismax)
+        return core.NOTFOUND
+
+
 def mk_minmax(ex, st, args, kwargs, n):
     c, nm = const_of(args[0]) if args else (False, None)
+    if c and nm in ('max', 'min') and len(args) == 1 and not kwargs:
+        new = FNew()
+        st.ghost['news'] = st.ghost.get('news', 0) + 1
+        st.ghost['new'] = new
+        st.ghost['newname'] = nm
+        st.ghost['attrs'] = {'_flist': Acc()}
+        return new
     if c and nm in ('max', 'min') and len(args) == 2 and isinstance(
             args[1], FList):
         return MMObj(z3.BoolVal(nm == 'max'), args[1].fl)
@@ -433,7 +486,8 @@ def m_sum(ex, st, args, kwargs, n):
     return b_sum(ex, st, args, kwargs, n)
 
 
-_MINE = {'builtins.len': b_len, 'cvxopt.modeling.sum': m_sum, 'builtins.type': b_type,
+_MINE = {'builtins.len': b_len, 'cvxopt.modeling.sum': m_sum,
+         'builtins.list': b_list, 'builtins.type': b_type,
          'builtins.sum': b_sum, 'cvxopt.modeling._function': new_function,
          'cvxopt.modeling.matrix': m_matrix,
          'cvxopt.modeling._minmax': mk_minmax,
@@ -484,6 +538,117 @@ def setup_for(which):
             fr['self'] = arg
             fr['key'] = Unknown('key')
     return setup
+
+
+def mm_setup(sc):
+    def setup(ex, st, fid, fn):
+        install()
+        fr = st.frames[fid]
+        lg = z3.Int('len(f)')
+        nf = z3.Int('number of functions')
+        ismax = z3.Bool('is max')
+        tl = z3.Function('len of function', IS, IS)
+        g = z3.Function('value of function', IS, IS, RS)
+        fl = VSeq('_flist', nf, tl, g, True, z3.Function('fl_', IS, IS),
+                  z3.Function('sig_', IS, RS))
+        # _minmax: one function (the max over its components, length 1) or
+        # several of length 1 or len(f)
+        fl.inv_fn = lambda k, lg_: [z3.Or(tl(k) == 1, tl(k) == lg_)]
+        st.pc += [lg >= 1, nf >= 1, tl(Z(0)) >= 1,
+                  z3.Implies(nf == 1, lg == 1)]
+        arg = MMArg(lg, fl, ismax)
+        st.ghost.update({'lg': lg, 'arg': arg, 'init': (lg, nf, ismax, tl, g,
+                                                       fl),
+                         'frame_check': False,
+                         'iteration_spec': mm_iteration})
+        fr['self'] = arg
+        fr['key'] = Unknown('key')
+    return setup
+
+
+def mm_iteration(ex, st, seq, k, el, attr, segs, s):
+    lg, l = st.ghost['lg'], st.ghost['l']
+    P = {'prop': 'C11'}
+    i = z3.Int('i')
+    ok = attr == '_flist' and len(segs) == 1 and segs[0][0] == 'one'
+    ex.oblige(st, 'index-terms', z3.BoolVal(ok), s,
+              'max/min[key]: every function of the list contributes exactly '
+              'one function to the new list (appended to %s: %d)' % (
+                  attr, len(segs)), extra=P)
+    if not ok:
+        return
+    v = segs[0][1]
+    bc = z3.And(seq.tl(k) == 1, lg != 1)
+    n0 = len(st.pc)
+    st.pc += [i >= 0, i < l.n]
+    ex.oblige(st, 'index-value', z3.If(
+        bc, z3.And(v.ln == 1, v.val(Z(0)) == seq.g(k, Z(0))),
+        z3.And(v.ln == l.n, v.val(i) == seq.g(k, l.at(i)))), s,
+        'max/min[key]: a broadcast argument is kept, any other is indexed '
+        'by l: entry i of the new argument is entry l(i) of the old one',
+        extra=P)
+    del st.pc[n0:]
+    ex.oblige(st, 'index-fresh', z3.BoolVal(v is not el), s,
+              'max/min[key]: the argument placed in the result is a new '
+              'object', extra=P)
+
+
+def mm_outcomes(ex, outs):
+    P = {'prop': 'C11'}
+    nret = nref = 0
+    for o in outs:
+        st = o.st
+        lg, nf, ismax, tl, g, fl = st.ghost['init']
+        l = st.ghost.get('l')
+        node = _N()
+        if o.kind == 'raise':
+            node.lineno = o.val[2] if len(o.val) > 2 else 0
+            ok = o.val[0] == 'ValueError' and l is not None
+            ex.oblige(st, 'index-refuses', z3.And(z3.BoolVal(ok), l.n == 0)
+                      if ok else z3.BoolVal(False), node,
+                      'max/min[key] raises only ValueError, for an empty '
+                      'index list (%s)' % (o.val[0],), extra=P)
+            nref += 1
+            continue
+        nret += 1
+        ex.oblige(st, 'index-fresh', z3.BoolVal(
+            o.val is st.ghost.get('new') and st.ghost.get('news') == 1),
+            node, 'max/min[key] returns the new object it built', extra=P)
+        ex.oblige(st, 'index-refuses', l.n > 0, node,
+                  'max/min[key] with an empty index list is refused',
+                  extra=P)
+        ex.oblige(st, 'index-value', z3.BoolVal(
+            st.ghost.get('newname') == 'max') == ismax, node,
+            'max/min[key] is a max iff the indexed object is', extra=P)
+        a = st.ghost.get('attrs', {}).get('_flist')
+        segs = a.segs(st) if isinstance(a, Acc) else None
+        okshape = segs is not None and len(segs) == 1 and \
+            segs[0][0] == 'mapped'
+        if not okshape:
+            ex.oblige(st, 'index-terms', z3.BoolVal(False), node,
+                      'max/min[key]: the new argument list is built by one '
+                      'pass over the arguments', extra=P)
+            continue
+        src = segs[0][1]
+        if src is fl:
+            goal = nf != 1
+        elif getattr(src, 'comps_of', None) is not None and \
+                src.comps_of[0] is fl and z3.eq(z3.simplify(
+                    src.comps_of[1]), Z(0)):
+            goal = nf == 1
+        else:
+            goal = z3.BoolVal(False)
+        ex.oblige(st, 'index-terms', goal, node,
+                  'max/min[key]: the pass is over the argument list for a '
+                  'componentwise max/min of several functions, and over the '
+                  'components of the single argument for the max/min over '
+                  'the components of one function -- exactly in these cases',
+                  extra=P)
+    if outs:
+        ex.oblige(outs[0].st, 'covered', z3.BoolVal(nret >= 2 and nref >= 1),
+                  _N(), 'max/min[key]: both forms return, an empty index '
+                  'list is refused (%d, %d paths)' % (nret, nref), extra=P)
+    return {'paths': len(outs), 'returns': nret}
 
 
 class _N:
@@ -677,4 +842,7 @@ FUNCS = {
     '_function.__getitem__': {
         'setup': lambda sc: setup_for('getitem'),
         'scenarios': {'function': {}}, 'on_outcomes': getitem_outcomes,
-        'config': {'unroll': 8}}}
+        'config': {'unroll': 8}},
+    '_minmax.__getitem__': {
+        'setup': mm_setup, 'scenarios': {'minmax': {}},
+        'on_outcomes': mm_outcomes, 'config': {'unroll': 8}}}
